@@ -329,6 +329,7 @@ def backend_of(unit):
 
 
 def find_counterexample(prop, unit, fn, obligation, tier):
+    fn = fn or ''
     """Search a concrete failing input for a rejected / undecided Verus obligation by running the real
     function natively against the executable form of its contract."""
     backend = backend_of(unit)
@@ -543,12 +544,13 @@ def cbmc_io(prop, tier, seed):
     return r
 
 
-def _driver_harness(n, driver_path):
+def _driver_harness(n, driver_path, heap_mib=32, tag=''):
     t = open(os.path.join(CDIR, 'driver_harness.c.tmpl')).read()
+    t = t.replace('@HEAPMIB@', str(heap_mib))
     params = ''.join(', int64_t input%d' % i for i in range(1, n + 1))
     stores = '\n'.join('  got[%d] = input%d;' % (i - 1, i) for i in range(1, n + 1))
     t = t.replace('@N@', str(n)).replace('@DRIVER@', driver_path).replace('@PARAMS@', params).replace('@STORES@', stores)
-    p = os.path.join(VERIF, 'build', 'driver_harness_%d.c' % n)
+    p = os.path.join(VERIF, 'build', 'driver_harness_%d%s.c' % (n, tag))
     with open(p, 'w') as f:
         f.write(t)
     return p
@@ -563,16 +565,20 @@ def cbmc_driver(prop, tier, seed):
     if p.returncode != 0:
         raise InfraError('gen_drivers failed: ' + p.stderr[-2000:])
     r = AuxResult('cbmc_driver', level='proof')
-    r.bound = 'CBMC on the driver text generated by the real driver::generate_c_driver(n, None) for n = 0..7, all argc in 0..n+3, all 64-bit argument values, all results of asm_main (loop-free up to the fixed argument count: complete)'
+    r.bound = 'CBMC on the driver text generated by the real driver::generate_c_driver(n, None) and (n, Some(8)) for n = 0..7, all argc in 0..n+3, all 64-bit argument values, all results of asm_main (loop-free up to the fixed argument count: complete)'
     r.functions = ['lang/driver/src/lib.rs: generate_c_driver', 'lang/driver/infrastructure/driver-template.c: main']
     r.cmds = ['native/target/release/gen_drivers build/drivers ; cbmc build/driver_harness_<n>.c --unwind 12 --unwinding-assertions --bounds-check --pointer-check']
     r.assumptions = ['atoi/atol/atoll/strtol/strtoll are given their C-standard contracts by type (the denoted value if representable in the result type, unspecified otherwise); calloc/free/write stubbed; POSIX exit status = low 8 bits of main\'s int result (T4)']
 
-    def one(n):
-        h = _driver_harness(n, os.path.join(ddir, 'target_scc', 'infrastructure', 'driver%d.c' % n))
+    def one(job):
+        n, heap = job
+        fname = 'driver%d.c' % n if heap is None else 'driver%d_%d.c' % (n, heap)
+        h = _driver_harness(n, os.path.join(ddir, 'target_scc', 'infrastructure', fname), heap_mib=heap or 32, tag='' if heap is None else '_%d' % heap)
         return n, _cbmc([h, '--unwind', '12', '--unwinding-assertions', '--bounds-check', '--pointer-check', '--trace'], 600)
+    # every parameter count, with the default heap size and with an explicit one (`--heap-size`)
+    jobs = [(n, None) for n in range(0, 8)] + [(n, 8) for n in range(0, 8)]
     with cf.ThreadPoolExecutor(max_workers=8) as ex:
-        for n, (st, out, dt) in ex.map(one, range(0, 8)):
+        for n, (st, out, dt) in ex.map(one, jobs):
             r.obligations += 1
             r.cases += 1
             r.nontrivial += 1
